@@ -864,8 +864,8 @@ fn c02_end(sc: &EvSc, default_schedule: bool) {
 			if ids.is_empty() || ids.iter().any(|i| *i < sc.script.len() && class_of(sc, *i).urgent()) {
 				continue;
 			}
-			let first = ids[0];
-			let Some(ps) = log.iter().position(|x| matches!(x, L::Send { id, .. } if *id == first)) else { continue };
+			// the batch's first event = the one sent first (a batch may be handed over in any order)
+			let Some((ps, first)) = log.iter().enumerate().find_map(|(p, x)| if let L::Send { id, .. } = x { ids.contains(id).then_some((p, *id)) } else { None }) else { continue };
 			let Some(ts) = send_t.get(&first) else { continue };
 			let mut in_force = sc.throttle;
 			for x in &log[..ps] {
@@ -897,7 +897,8 @@ fn c02_end(sc: &EvSc, default_schedule: bool) {
 			.iter()
 			.filter_map(|l| if let L::BatchEnter { ids, t, .. } = l { Some((*t, { let mut v = ids.clone(); v.sort_unstable(); v })) } else { None })
 			.collect();
-		if !expected.contains(&got) {
+		if !expected.contains(&got) && model::clauses(sc, &log[..dpos]).is_err() {
+			let why = model::clauses(sc, &log[..dpos]).err().unwrap_or_default();
 			let e0 = &expected[0];
 			let kind = if got.len() != e0.len() {
 				"batch-count"
@@ -906,7 +907,7 @@ fn c02_end(sc: &EvSc, default_schedule: bool) {
 			} else {
 				"delivery-time"
 			};
-			push(format!("C02/differs-from-debounce-model/{kind}"), format!("model expects (time, batch) {expected:?}, handler saw {got:?}"));
+			push(format!("C02/differs-from-debounce-model/{kind}"), format!("model expects (time, batch) {expected:?}, handler saw {got:?}; clause violated: {why}"));
 		}
 	}
 }
